@@ -215,6 +215,21 @@ class Interp:
                             env[x.id] = xv
                         continue
                     raise AnalysisError("tuple assignment not modelled")
+                if isinstance(t, ast.Tuple) and isinstance(s.value, ast.Tuple) and len(t.elts) == len(s.value.elts) and all(
+                        isinstance(x, ast.Subscript) and isinstance(x.value, ast.Name) and x.value.id == self.stack_name for x in t.elts):
+                    # stack[a:b], stack[c:d] = X, Y : all right-hand sides are evaluated first, then the stores happen left to right
+                    vals = [self.ev(v, (env, stack, alt)) for v in s.value.elts]
+                    for x, v in zip(t.elts, vals):
+                        n = len(stack.items)
+                        if isinstance(x.slice, ast.Slice):
+                            lo = self.const_index(x.slice.lower, (env, stack, alt)) if x.slice.lower is not None else None
+                            hi = self.const_index(x.slice.upper, (env, stack, alt)) if x.slice.upper is not None else None
+                            if v[0] != "list" or lo is None or lo >= 0 or -lo > n or (hi is not None and (hi >= 0 or -hi > n)):
+                                raise AnalysisError("paired slice assignment outside the modelled window")
+                            stack.items[n + lo:(n + hi) if hi is not None else n] = list(v[1])
+                        else:
+                            stack.items[self.const_index(x.slice, (env, stack, alt))] = v
+                    continue
                 if isinstance(t, ast.Subscript) and isinstance(t.value, ast.Name) and t.value.id == self.stack_name and isinstance(t.slice, ast.Slice):
                     lo = self.const_index(t.slice.lower, (env, stack, alt)) if t.slice.lower is not None else None
                     hi = self.const_index(t.slice.upper, (env, stack, alt)) if t.slice.upper is not None else None
@@ -262,6 +277,26 @@ class Interp:
             if isinstance(s, ast.Expr) and isinstance(s.value, ast.Constant):
                 continue
             if isinstance(s, ast.Pass):
+                continue
+            if isinstance(s, ast.Delete) and all(isinstance(t, ast.Subscript) and isinstance(t.value, ast.Name) and t.value.id in (self.stack_name, self.alt_name)
+                                                 for t in s.targets):
+                # del stack[-2] / del stack[-2:] / del stack[-3:-1]
+                for t in s.targets:
+                    tgt = stack if t.value.id == self.stack_name else alt
+                    n = len(tgt.items)
+                    if isinstance(t.slice, ast.Slice):
+                        if t.slice.step is not None:
+                            raise AnalysisError("del with a stepped slice not modelled")
+                        lo = self.const_index(t.slice.lower, (env, stack, alt)) if t.slice.lower is not None else None
+                        hi = self.const_index(t.slice.upper, (env, stack, alt)) if t.slice.upper is not None else None
+                        if lo is None or lo >= 0 or -lo > n or (hi is not None and (hi >= 0 or -hi > n)):
+                            raise AnalysisError("del of a stack slice outside the modelled window")
+                        del tgt.items[n + lo:(n + hi) if hi is not None else n]
+                    else:
+                        idx = self.const_index(t.slice, (env, stack, alt))
+                        if idx >= 0 or -idx > n:
+                            raise AnalysisError("del of a stack item outside the modelled window")
+                        del tgt.items[n + idx]
                 continue
             raise AnalysisError("statement kind %s not modelled in handler %s" % (type(s).__name__, self.fn.name))
         return [Outcome(conds, stack, alt, ("const", None))]
